@@ -95,12 +95,19 @@ def t_graph3(ctx):
         # the names the buses carry inside bubus are a configuration: plain, or each a prefix of the next ('Orders' / 'OrdersArchive')
         real = {'plain': {}, 'nested': {'A': 'Orders', 'B': 'OrdersArchive', 'C': 'OrdersArchiveEU'}}[ctx.cfg.get('naming', 'plain')]
         buses = {n: (ctx.bus(n, name_=real[n]) if n in real else ctx.bus(n)) for n in names}
-        for n in names:
-            ctx.on(buses[n], P, f'h{n}', ret=n.lower())
-        for (i, j), on in adj.items():
-            if on:
-                buses[i].on('*', buses[j].dispatch)
-                ctx.forwards.append((i, j))
+        wiring_first = ctx.cfg.get('wiring') == 'first'      # the graph is wired before the buses' own handlers are attached
+        if not wiring_first:
+            for n in names:
+                ctx.on(buses[n], P, f'h{n}', ret=n.lower())
+        edges = [(i, j) for (i, j), on in adj.items() if on]
+        if ctx.cfg.get('wiring_reversed'):
+            edges.reverse()
+        for (i, j) in edges:
+            buses[i].on('*', buses[j].dispatch)
+            ctx.forwards.append((i, j))
+        if wiring_first:
+            for n in names:
+                ctx.on(buses[n], '*', f'h{n}', ret=n.lower())
         m = ctx.main
         e = m.dispatch(buses[entry], ctx.ev(P, 'P1', event_timeout=30.0))
         await m.wait(e)
@@ -139,6 +146,9 @@ def jobs(tier):
                     out.append(Job('C07', 'fw.graph3', t_graph3, dict(entry=entry, fixed={'e_AB': ab, 'e_BC': bc, 'e_CA': ca})))
                     if tier != 'quick' or (ab and bc) or entry == 'C':
                         out.append(Job('C07', 'fw.graph3', t_graph3, dict(entry=entry, naming='nested', fixed={'e_AB': ab, 'e_BC': bc, 'e_CA': ca})))
+                    if tier != 'quick' or (ab and bc and ca):
+                        out.append(Job('C07', 'fw.graph3', t_graph3, dict(entry=entry, wiring='first', fixed={'e_AB': ab, 'e_BC': bc, 'e_CA': ca})))
+                        out.append(Job('C07', 'fw.graph3', t_graph3, dict(entry=entry, wiring='first', wiring_reversed=True, fixed={'e_AB': ab, 'e_BC': bc, 'e_CA': ca})))
     W = ('forwarded',)
     out += [
         mk('C07', 'fw/chain3', S.forward_chain(3, topo='chain', second_event=True), witnesses=W),
